@@ -145,6 +145,7 @@ func DrawProfile(property, tier string, r *PRNG) *Profile {
 		scale(p.Weights, []string{"Put", "Take", "BasketCreate"}, 2.5)
 		scale(p.Weights, []string{"BankSend"}, 1.5)
 		scale(p.Weights, dataKinds, 0.1)
+		p.StyleRate = Pick(r, []float64{0.1, 0.3, 0.5}) // amounts are strings read by more than one parser
 		if (thorough && r.Chance(0.5)) || r.Chance(0.25) {
 			p.WideW = 2 // "very large totals" are part of the property's domain: also in the quick tier
 		}
